@@ -22,7 +22,14 @@ type memHalf struct {
 	readerBlocked bool
 	consumed      int64
 	written       int64
+	readDeadline  time.Time // zero = none
 }
+
+type memTimeout struct{}
+
+func (memTimeout) Error() string   { return "memconn: i/o timeout" }
+func (memTimeout) Timeout() bool   { return true }
+func (memTimeout) Temporary() bool { return true }
 
 func newHalf() *memHalf { h := &memHalf{}; h.cond = sync.NewCond(&h.mu); return h }
 
@@ -53,6 +60,15 @@ func (c *MemConn) Read(p []byte) (int, error) {
 	h.mu.Lock()
 	defer h.mu.Unlock()
 	for len(h.buf) == 0 && !h.writerClosed && !h.readerClosed {
+		if dl := h.readDeadline; !dl.IsZero() {
+			left := time.Until(dl)
+			if left <= 0 {
+				h.readerBlocked = false
+				return 0, memTimeout{}
+			}
+			t := time.AfterFunc(left, func() { h.mu.Lock(); h.cond.Broadcast(); h.mu.Unlock() })
+			defer t.Stop()
+		}
 		h.readerBlocked = true
 		h.cond.Broadcast()
 		h.cond.Wait()
@@ -115,7 +131,13 @@ func (c *MemConn) CloseWrite() {
 func (c *MemConn) LocalAddr() net.Addr                { return c.laddr }
 func (c *MemConn) RemoteAddr() net.Addr               { return c.raddr }
 func (c *MemConn) SetDeadline(t time.Time) error      { return nil }
-func (c *MemConn) SetReadDeadline(t time.Time) error  { return nil }
+func (c *MemConn) SetReadDeadline(t time.Time) error {
+	c.r.mu.Lock()
+	c.r.readDeadline = t
+	c.r.cond.Broadcast()
+	c.r.mu.Unlock()
+	return nil
+}
 func (c *MemConn) SetWriteDeadline(t time.Time) error { return nil }
 
 // IsClosed reports whether Close was called on this end.
